@@ -82,8 +82,8 @@ class Sampler(ABC):
         if self.initial_point is None:
             self.initial_point = self._get_default_initial_point(self.dim)
 
-        # State variables
-        self.current_point = self.initial_point
+        # State variables (a scalar initial point is stored as a 1D array like every later state)
+        self.current_point = np.atleast_1d(self.initial_point)
 
         # History variables
         self._samples = []
@@ -464,8 +464,8 @@ class ProposalBasedSampler(Sampler, ABC):
         if self.proposal is None:
             self.proposal = self._default_proposal
 
-        # State variables
-        self.current_point = self.initial_point
+        # State variables (a scalar initial point is stored as a 1D array like every later state)
+        self.current_point = np.atleast_1d(self.initial_point)
         self.scale = self.initial_scale
 
         self.current_target_logd = self.target.logd(self.current_point)
